@@ -269,16 +269,22 @@ theorem call_reload_synced (st : St) (hs : Synced st) : Synced (call H st .reloa
       rw [hst]
       refine ⟨hs.idle, fun _ => ⟨l, hd, fun n => (build_cache H _ _ _ _ hb n).symm⟩⟩
 
+theorem tick_pending (st : St) (hp : st.pending = true) :
+    tick st = { st with pending := false, saverBusy := false, file := render st.cache, cachedContent := render st.cache } := by
+  simp [tick, dequeue, save, hp]
+
+theorem tick_idle (st : St) (hp : st.pending = false) (hb : st.saverBusy = false) : tick st = st := by
+  simp [tick, dequeue, save, hp, hb]
+
 theorem tick_synced (st : St) (hn : (st.cache.map Prod.fst).Nodup) (hs : Synced st) :
     Synced (tick st) ∧ (tick st).pending = false ∧
       (st.pending = true → (tick st).file = render st.cache ∧ (tick st).cachedContent = render st.cache) := by
-  unfold tick dequeue save
   by_cases hp : st.pending = true
-  · simp only [hp, if_true]
+  · rw [tick_pending st hp]
     exact ⟨⟨rfl, fun _ => render_represents st.cache hn⟩, rfl, fun _ => ⟨rfl, rfl⟩⟩
   · have hp' : st.pending = false := by simpa using hp
-    simp only [hp', hs.idle]
-    exact ⟨hs, hp', fun h => by cases h⟩
+    rw [tick_idle st hp' hs.idle]
+    exact ⟨hs, hp', fun h => by rw [hp'] at h; cases h⟩
 
 theorem applyEv_synced (st : St) (e : Ev) (hi : Inv H st) (hs : Synced st) : Synced (applyEv H st e) := by
   cases e with
@@ -296,5 +302,37 @@ theorem runHist_synced (evs : List Ev) (st : St) (hi : Inv H st) (hs : Synced st
   induction evs generalizing st with
   | nil => exact hs
   | cons e evs ih => exact ih _ (applyEv_inv H st e hi) (applyEv_synced H st e hi hs)
+
+/-! ### registration -/
+
+theorem first_load (s0 : St) (hl : s0.loaded = false) (hf : s0.fault = false) (hb0 : s0.saverBusy = false)
+    (st : St) (h : call H s0 .reload = (st, .ok)) : Inv H st ∧ Synced st := by
+  cases hd : decodeDoc s0.file with
+  | none =>
+    have : (call H s0 .reload).2 = .errParse := by
+      simp [call, Op.thread, loadProg, runThread, seg, runLocked, exec, touch, hl, hd]
+    rw [h] at this; cases this
+  | some l =>
+    cases hb : build H s0.pskLen l with
+    | none =>
+      have : (call H s0 .reload).2 = .errInvalid := by
+        simp [call, Op.thread, loadProg, runThread, seg, runLocked, exec, touch, hl, hd, hb]
+      rw [h] at this; cases this
+    | some pr =>
+      obtain ⟨lk, c⟩ := pr
+      have hst : (call H s0 .reload).1 =
+          { s0 with cachedContent := s0.file, lookup := lk, cache := c, loaded := true,
+                    tcp := s0.tcp.map (fun _ => lk), udp := s0.udp.map (fun _ => lk) } := by
+        simp [call, Op.thread, loadProg, runThread, seg, runLocked, exec, touch, hl, hd, hb]
+      rw [h] at hst
+      simp only at hst
+      subst hst
+      have hk := build_ok H s0.pskLen l lk c hb (decodeDoc_nodup _ _ hd)
+      exact ⟨inv_load H hf s0.file lk c (build_nodup H _ _ _ _ hb) ⟨hk.1, hk.2.1⟩,
+             ⟨hb0, fun _ => ⟨l, hd, fun n => (build_cache H _ _ _ _ hb n).symm⟩⟩⟩
+
+theorem fresh_reload (p : Nat) (t u : Bool) (f : Doc) (st : St)
+    (h : call H (fresh p t u f) .reload = (st, .ok)) : Inv H st ∧ Synced st :=
+  first_load H (fresh p t u f) rfl rfl rfl st h
 
 end SSV.Cred
